@@ -74,6 +74,13 @@ theorem gen_reader_dispatch (t : Ty) : sbrNeed t = sizeofT t := by cases t <;> r
 theorem array_write_in_bounds (k : Kind) (n s : Nat) : arrayCount k n s = n * s := by
   cases k <;> rfl
 
+/-- `write(p, n)` hands on exactly `n` bytes, `read(n)` returns `n` bytes and advances by `n`, `skip(n)` advances by exactly
+    `n`: the counts regenerated from `StreamBuffer::write`, `StreamBufferReader::read(n)/skip`, `File::read/write`
+    (`fread`/`fwrite` size × count) and `Socket_::skip` (a thrown-away read).  `raw_write_spec`, `raw_read_spec`, `skip_spec`,
+    `read_back*` rest on it. -/
+theorem gen_raw_byte_counts (k : Kind) (n : Nat) :
+    rawWriteCount k n = n ∧ rawReadCount k n = n ∧ rawReadAdv k n = n ∧ skipAdv k n = n := gen_raw_counts k n
+
 /-! ## canonical bytes -/
 
 /-- `stream << x` appends exactly the `sizeof(T)` bytes of `x` in the order in force — every class, every
@@ -379,15 +386,15 @@ theorem read_back (k : Kind) (e : Endian) (ops : List WOp) (rest : List UInt8) (
       rw [ih e]
       simp [Function.comp_def]
     | bytes bs =>
-      simp only [writeAll, writeOp, mirror, expected, readAll, readOp, List.append_assoc]
+      simp only [rawWriteCount_eq, rawReadCount_eq, rawReadAdv_eq, List.take_length, writeAll, writeOp, mirror, expected, readAll, readOp, List.append_assoc]
       rw [List.take_left' rfl, List.drop_left' rfl]
       rw [ih e]
     | cstr bs =>
-      simp only [writeAll, writeOp, mirror, expected, readAll, readOp, List.append_assoc, putCStr]
+      simp only [rawReadCount_eq, rawReadAdv_eq, writeAll, writeOp, mirror, expected, readAll, readOp, List.append_assoc, putCStr]
       rw [List.take_left' rfl, List.drop_left' rfl]
       rw [ih e]
     | strArray ss =>
-      simp only [writeAll, writeOp, mirror, expected, readAll, readOp, List.append_assoc, string_array_canonical,
+      simp only [rawReadCount_eq, rawReadAdv_eq, writeAll, writeOp, mirror, expected, readAll, readOp, List.append_assoc, string_array_canonical,
         Option.getD_some]
       rw [List.take_left' rfl, List.drop_left' rfl]
       rw [ih e]
@@ -424,15 +431,15 @@ theorem read_back_array_op (k : Kind) (hk : k ≠ .sb) (e : Endian) (ops : List 
       rw [ih e]
     | carray t vs => exact absurd hop.1 hk
     | bytes bs =>
-      simp only [writeAll, writeOp, mirrorA, expectedA, mirror, expected, readAll, readOp, List.append_assoc]
+      simp only [rawWriteCount_eq, rawReadCount_eq, rawReadAdv_eq, List.take_length, writeAll, writeOp, mirrorA, expectedA, mirror, expected, readAll, readOp, List.append_assoc]
       rw [List.take_left' rfl, List.drop_left' rfl]
       rw [ih e]
     | cstr bs =>
-      simp only [writeAll, writeOp, mirrorA, expectedA, mirror, expected, readAll, readOp, List.append_assoc, putCStr]
+      simp only [rawReadCount_eq, rawReadAdv_eq, writeAll, writeOp, mirrorA, expectedA, mirror, expected, readAll, readOp, List.append_assoc, putCStr]
       rw [List.take_left' rfl, List.drop_left' rfl]
       rw [ih e]
     | strArray ss =>
-      simp only [writeAll, writeOp, mirrorA, expectedA, mirror, expected, readAll, readOp, List.append_assoc, string_array_canonical,
+      simp only [rawReadCount_eq, rawReadAdv_eq, writeAll, writeOp, mirrorA, expectedA, mirror, expected, readAll, readOp, List.append_assoc, string_array_canonical,
         Option.getD_some]
       rw [List.take_left' rfl, List.drop_left' rfl]
       rw [ih e]
@@ -610,7 +617,7 @@ theorem write_size (k : Kind) (e : Endian) (op : WOp) : (writeOp k e op).2.lengt
   | setEndian e' => rfl
   | scalar t v => exact scalar_length k e t _
   | array t vs => simp [writeOp, itemSize, array_length]
-  | bytes bs => rfl
+  | bytes bs => simp [writeOp, itemSize]
   | cstr bs => rfl
   | carray t vs =>
     simp only [writeOp, itemSize, putCArray]
